@@ -1,8 +1,10 @@
 package checks
 
 import (
+	"bufio"
 	"bytes"
 	"fmt"
+	"io"
 	"sync"
 
 	"github.com/gregoryv/mq"
@@ -137,7 +139,14 @@ func c14Overwrite(c *run.Ctx, r *gen.RNG) {
 	for _, f := range frames {
 		stream = append(stream, f.Bytes...)
 	}
-	rd := &recyclingReader{data: stream, chunk: 1 + r.Intn(32)}
+	var rd io.Reader = &recyclingReader{data: stream, chunk: 1 + r.Intn(32)}
+	rkind := "recycling"
+	if r.Chance(1, 2) {
+		// the caller's own *bufio.Reader, small enough to be refilled several times
+		rd = bufio.NewReaderSize(bytes.NewReader(stream), gen.Pick(r, 16, 64, 512, 4096))
+		rkind = "bufio"
+	}
+	c.Count("stream-readers", rkind, 1)
 	type got struct {
 		p    mq.Packet
 		snap ref.Flat
@@ -157,7 +166,9 @@ func c14Overwrite(c *run.Ctx, r *gen.RNG) {
 			break
 		}
 		read = append(read, got{res.Pkt, s})
-		rd.scribble()
+		if rr, ok := rd.(*recyclingReader); ok {
+			rr.scribble()
+		}
 		for k, g := range read {
 			s2, _ := snapshotGuarded(g.p)
 			if !ref.Equal(g.snap, s2) {
